@@ -149,9 +149,18 @@ def streams(rng, tier):
                 judge=lambda op, impl, model, spec: "ok" if impl.startswith("ok ") else "violation",
                 rule="ikey: BTreeMaps keyed by tuples, (), vectors, options, fixed arrays and maps (the model's ordered maps have scalar keys only, so no model op): "
                      "native and bridge write the same bytes, and each decoder gives the map back from them")
-    for s in (s1, s2, s3, s4, s5):
+    # ONE bridge Deserializer over the bytes, rewound through decoder_mut().set_position(0) and asked again (after successful and after failed passes):
+    # every pass answers what a fresh deserializer answers (a deserializer is its decoder, no budget is used up by earlier passes)
+    src = [o for o in d_ops + h_ops if o.startswith("ide ")]
+    step = max(1, len(src) // (3000 if tier == "quick" else 40000))
+    tw = list(dict.fromkeys("twice " + " ".join(o.split(" ")[1:3]) for o in src[::step]))
+    s6 = Stream("one-deserializer-again", "hserde", tw, model_ops=["nop"] * len(tw),
+                judge=lambda op, impl, model, spec: "ok" if impl.startswith("same | ") else "violation",
+                rule="twice <type> <bytes>: one Deserializer, three passes over the same bytes with a rewind in between == a fresh Deserializer's answer each time",
+                nontrivial=lambda op, impl: impl.startswith("same | ok"))
+    for s in (s1, s2, s3, s4, s5, s6):
         s.shrinkable = False
-    return [s1, s2, s3, s4, s5]
+    return [s1, s2, s3, s4, s5, s6]
 
 
 def judge_extra(op, impl, model, spec):
@@ -257,6 +266,8 @@ def extra_stream(rng, tier):
 
 
 def replay_streams(rp):
+    if (rp.get("original_op") or rp.get("op", "")).startswith("twice"):
+        return [Stream("replay", "hserde", [rp.get("original_op") or rp["op"]], model_ops=["nop"], judge=lambda op, impl, model, spec: "ok" if impl.startswith("same | ") else "violation")]
     if (rp.get("original_op") or rp.get("op", "")).startswith("ikey"):
         return [Stream("replay", "hserde", [rp.get("original_op") or rp["op"]], model_ops=["nop"], judge=lambda op, impl, model, spec: "ok" if impl.startswith("ok ") else "violation")]
     op = rp.get("original_op") or rp["op"]
